@@ -1266,7 +1266,9 @@ func (s *stack) runLineage(cfg nodeCfg, lifetimes int, wantForks int, st *lineag
 			}
 			// ... and the operator may ship adjusted tuning parameters for the
 			// same network with the restart
-			if s.rngX.Intn(100) < 40 {
+			// (the second restart of every root lineage always does, so that no
+			// lineage goes without)
+			if s.rngX.Intn(100) < 40 || (s.depth == 0 && life == 1) {
 				s.tune++
 				s.mfst = tunedManifest(s.mfst, s.tune)
 				atomic.AddInt64(&st.tunedRestarts, 1)
@@ -1542,7 +1544,7 @@ func runNode(t *testing.T, part string, small bool) {
 	if small {
 		cfg = nodeCfg{cases: run.N(1, 12), lifetimes: 2, stepsMin: 10, stepsMax: 20, forksPerRun: 1}
 	}
-	run.SetRule("each case is one node: a real f3.F3 (mocknet + gossipsub + FakeEC + mock clock + map datastore + real WAL directory) signing for the whole power table - one identity, or (every third case, index%3==0) two local identities of equal power for both of which the harness plays the signing client and the attacker - driven through several lifetimes (Stop / New+Start over the same datastore and disk path, clock and EC head moved while down, 40% of the restarts with a manifest that differs only in tuning parameters: Gpbft.RebroadcastBackoffMax, CertificateExchange.MaximumPollInterval) by a seeded script of clock advances, signature withholding (rebroadcast storms), bursts of conflicting / duplicate / older-instance requests from several goroutines through F3.Broadcast, a final future-instance request, and crash forks (wire log, datastore and WAL directory copied at an arbitrary instant, tail optionally cut at a random byte no earlier than the last published entry) each run as a new node on the copy and attacked on the slots already used; an observer pubsub peer records the wire; distinct = (case, stack, lifetime) with at least one conflicting request kept off the wire")
+	run.SetRule("each case is one node: a real f3.F3 (mocknet + gossipsub + FakeEC + mock clock + map datastore + real WAL directory) signing for the whole power table - one identity, or (every third case, index%3==0) two local identities of equal power for both of which the harness plays the signing client and the attacker - driven through several lifetimes (Stop / New+Start over the same datastore and disk path, clock and EC head moved while down, 40% of the restarts, and the second one of every root lineage, with a manifest that differs only in tuning parameters: Gpbft.RebroadcastBackoffMax, CertificateExchange.MaximumPollInterval) by a seeded script of clock advances, signature withholding (rebroadcast storms), bursts of conflicting / duplicate / older-instance requests from several goroutines through F3.Broadcast, a final future-instance request, and crash forks (wire log, datastore and WAL directory copied at an arbitrary instant, tail optionally cut at a random byte no earlier than the last published entry) each run as a new node on the copy and attacked on the slots already used; an observer pubsub peer records the wire; distinct = (case, stack, lifetime) with at least one conflicting request kept off the wire")
 	run.Assume("no storage errors are injected; no other node uses the identities",
 		"a manifest that keeps the network name, bootstrap epoch, initial instance and all consensus parameters and changes only RebroadcastBackoffMax / MaximumPollInterval is a restart of the same node on the same network; the WAL of the oracles is everything below <disk path>/wal (no assumption on how the node names the log directory)",
 		"the observer may miss messages (only what it saw is judged); awaiting delivery uses bounded polling whose expiry is counted, never judged",
